@@ -199,7 +199,8 @@ FillOK(toks, i, f) == f.name = "none" => toks[i] = O
 Ambients == {"spaced", "compact", "lines"}
 Ends == { [lead |-> "", trail |-> ""], [lead |-> "", trail |-> "\n"], [lead |-> "\n\n", trail |-> "\n"],
           [lead |-> "  ", trail |-> "  \n"], [lead |-> "# head\n", trail |-> "\n# foot\n"],
-          [lead |-> "\n", trail |-> "\n\n\n"] }
+          [lead |-> "\n", trail |-> "\n\n\n"],
+          [lead |-> "", trail |-> "\r\n\r\n"], [lead |-> "\r\n", trail |-> "\n\f\n"] }
 
 VARIABLES stage, d
 vars == <<stage, d>>
